@@ -65,6 +65,14 @@ type sfact struct {
 	scope *ssa.BasicBlock
 }
 
+// pfact: a fact about the result of an operation that can panic. It says something about the
+// operands as well (len(s[:2]) = 2 and len(s[:2]) <= len(s) give len(s) >= 2), so it may only be used
+// where the operation has already been executed: at points it strictly precedes and dominates.
+type pfact struct {
+	dfact
+	at *ssa.Slice
+}
+
 type diseq struct {
 	t term
 	c int64
@@ -91,6 +99,8 @@ type bpFn struct {
 	bp           *bp
 	fn           *ssa.Function
 	global       []dfact // definitional facts (valid wherever the values are defined)
+	partial      []pfact // facts that hold once a partial operation (a slice expression) has succeeded
+	partialAt    *ssa.Slice
 	inv          []sfact // proven phi invariants, scoped to the phi's block
 	ready        bool
 	canonMap     map[ssa.Value]ssa.Value
@@ -98,6 +108,7 @@ type bpFn struct {
 	firstLoad    map[loadKey]ssa.Value
 	sharedStores bool
 	keyIndex     map[string][]ssa.Value
+	elemLoads    map[elemKey]*ssa.UnOp
 }
 
 type bp struct {
@@ -227,6 +238,10 @@ func (f *bpFn) lenTerm(v ssa.Value) (term, int64) {
 
 func (f *bpFn) add(u term, uo int64, v term, vo int64, c int64, why string) {
 	// (u+uo) - (v+vo) <= c   =>  u - v <= c - uo + vo
+	if f.partialAt != nil {
+		f.partial = append(f.partial, pfact{dfact{u, v, c - uo + vo, why}, f.partialAt})
+		return
+	}
 	f.global = append(f.global, dfact{u, v, c - uo + vo, why})
 }
 
@@ -281,6 +296,13 @@ func (f *bpFn) defFacts(v ssa.Value) {
 		lt, lo := f.lenTerm(v)
 		if lt.k == tLen {
 			f.add(zeroT, 0, lt, lo, 0, "len>=0")
+			// os.Args holds at least the program name (trusted base: the process was started with an
+			// argv[0], as every shell and the Go runtime's own tests assume)
+			if u, ok := v.(*ssa.UnOp); ok && u.Op == token.MUL {
+				if g, ok := u.X.(*ssa.Global); ok && g.Name() == "Args" && g.Pkg != nil && g.Pkg.Pkg.Path() == "os" {
+					f.add(zeroT, 0, lt, lo, -1, "os.Args holds the program name")
+				}
+			}
 		}
 	}
 	switch x := v.(type) {
@@ -289,6 +311,8 @@ func (f *bpFn) defFacts(v ssa.Value) {
 		if rt.k != tLen {
 			return
 		}
+		f.partialAt = x
+		defer func() { f.partialAt = nil }()
 		xt, xo := f.lenTerm(x.X)
 		var lo term = zeroT
 		var loo int64
@@ -717,7 +741,32 @@ func (f *bpFn) condFacts(cond ssa.Value, tv bool, out *[]dfact, dq *[]diseq) {
 						*out = append(*out, dfact{lt, zeroT, mx - lo, "non-nil submatch"}, dfact{zeroT, lt, lo - mn, "non-nil submatch"})
 					}
 				} else {
-					*out = append(*out, dfact{zeroT, lt, lo - 1, `!= ""`})
+					k := int64(1)
+					// an element of a submatch list is "" or a string of its capture group's language:
+					// when it is not empty it has at least the group's minimal length
+					if u, ok := f.canon(other).(*ssa.UnOp); ok && u.Op == token.MUL {
+						if ia, ok := u.X.(*ssa.IndexAddr); ok {
+							if gi, ok := constInt(ia.Index); ok && gi >= 1 {
+								if ris := f.submatchRegexSet(ia.X); len(ris) > 0 {
+									mn := int64(-1)
+									for _, ri := range ris {
+										g := findGroup(ri.Re, int(gi))
+										if g == nil {
+											mn = 1
+											break
+										}
+										if m := int64(minLenRe(g)); mn < 0 || m < mn {
+											mn = m
+										}
+									}
+									if mn > k {
+										k = mn
+									}
+								}
+							}
+						}
+					}
+					*out = append(*out, dfact{zeroT, lt, lo - k, `!= ""`})
 				}
 			}
 			return
@@ -757,6 +806,40 @@ func (f *bpFn) condFacts(cond ssa.Value, tv bool, out *[]dfact, dq *[]diseq) {
 				st, so := f.lenTerm(args[0])
 				pt, po := f.lenTerm(args[1])
 				*out = append(*out, dfact{pt, st, so - po, fn.Name() + " true"})
+				// a suffix test evaluated where a prefix test on the same string has succeeded: the
+				// string is at least as long as the shortest text that starts with one literal and ends
+				// with the other ("[" ... "]" has two characters)
+				if q, ok := constString(args[1]); ok && fn.String() == "strings.HasSuffix" {
+					subj := f.canon(args[0])
+					best := int64(-1)
+					domEdges(c.Block(), func(cond ssa.Value, ctv bool) bool {
+						pc, ok := cond.(*ssa.Call)
+						if !ok || !ctv {
+							return false
+						}
+						g := pc.Call.StaticCallee()
+						if g == nil || g.String() != "strings.HasPrefix" || f.canon(pc.Call.Args[0]) != subj {
+							return false
+						}
+						p, ok := constString(pc.Call.Args[1])
+						if !ok {
+							return false
+						}
+						over := 0
+						for k := 1; k <= len(p) && k <= len(q); k++ {
+							if p[len(p)-k:] == q[:k] {
+								over = k
+							}
+						}
+						if n := int64(len(p) + len(q) - over); n > best {
+							best = n
+						}
+						return false
+					})
+					if best > 0 {
+						*out = append(*out, dfact{zeroT, st, so - best, "prefix and suffix literals"})
+					}
+				}
 			}
 		case "(*regexp.Regexp).MatchString":
 			if tv {
@@ -930,11 +1013,45 @@ func usableAt(facts []sfact, b *ssa.BasicBlock) []dfact {
 	return out
 }
 
-// factsAt: definitional facts plus the invariants in scope at b.
+// factsAt: definitional facts plus the invariants in scope at the end of b, and what the slice
+// expressions executed on the way there have established.
 func (f *bpFn) factsAt(b *ssa.BasicBlock) []dfact {
 	out := make([]dfact, 0, len(f.global)+len(f.inv)+32)
 	out = append(out, f.global...)
+	for _, pf := range f.partial {
+		if db := pf.at.Block(); db != nil && db.Dominates(b) {
+			out = append(out, pf.dfact)
+		}
+	}
 	return append(out, usableAt(f.inv, b)...)
+}
+
+// factsAtPoint: the same strictly before instruction pt.idx of pt.b
+func (f *bpFn) factsAtPoint(pt point) []dfact {
+	out := make([]dfact, 0, len(f.global)+len(f.inv)+32)
+	out = append(out, f.global...)
+	for _, pf := range f.partial {
+		db := pf.at.Block()
+		if db == nil {
+			continue
+		}
+		if db != pt.b {
+			if db.Dominates(pt.b) {
+				out = append(out, pf.dfact)
+			}
+			continue
+		}
+		for i, ins := range db.Instrs {
+			if i >= pt.idx {
+				break
+			}
+			if ins == ssa.Instruction(pf.at) {
+				out = append(out, pf.dfact)
+				break
+			}
+		}
+	}
+	return append(out, usableAt(f.inv, pt.b)...)
 }
 
 // prove g at point pt with extra hypotheses.
@@ -945,7 +1062,7 @@ func (f *bpFn) prove(pt point, g goal, hyps []sfact, depth int) bool {
 	if g.u.k == tZero && g.v.k == tZero {
 		return g.c >= 0
 	}
-	facts := f.factsAt(pt.b)
+	facts := f.factsAtPoint(pt)
 	facts = append(facts, usableAt(hyps, pt.b)...)
 	var dqs []diseq
 	f.pathFacts(pt.b, &facts, &dqs)
